@@ -278,7 +278,10 @@ Definition parse_evaluation_expression_body (rec : list ttree -> pres expr) (tok
   else if all_tokens_match tokens [S_ NAME; S_ OPEN_PARENS; None; S_ CLOSE_PARENS] then
     t0 <- nth_tok tokens 0 ;;
     g <- nth_group tokens 2 ;;
-    arguments <- pmap (fun x => a <- rec x ;; POk (attribute_value_of a)) (partition_tokens COMMA g) ;;
+    (* an attribute argument becomes its value, except for the functions that test it for existence *)
+    let keep := existsb (str_eqb (t_str t0)) existence_functions in
+    arguments <- pmap (fun x => a <- rec x ;; POk (if keep then a else attribute_value_of a))
+                      (partition_tokens COMMA g) ;;
     at_position (t_pos t0) (function_ctor (t_str t0) arguments)
   else if all_tokens_match tokens [S_ NAME; S_ OPEN_PARENS; S_ CLOSE_PARENS] then
     t0 <- nth_tok tokens 0 ;; function_ctor (t_str t0) []
@@ -507,6 +510,24 @@ Definition parse_cached (cs : caches) (s : str) : caches * outcome :=
       end
   end.
 
+(* ---- functools.cached_property on AST nodes ------------------------------------------------------------
+   The nodes of a cached expression are shared by all callers, and three of their members are
+   cached_property: the first read computes the value from the node's fields and stores it in the instance,
+   later reads return what is stored.  The fields are assigned in __init__ only (the generator fails
+   otherwise), so the computation is a function `f` of the node.  Nodes are named by numbers here. *)
+Definition memo (V : Type) := list (nat * V).
+Fixpoint memo_find {V} (m : memo V) (k : nat) : option V :=
+  match m with [] => None | (k', v) :: r => if Nat.eqb k k' then Some v else memo_find r k end.
+Definition memo_read {V} (f : nat -> V) (m : memo V) (k : nat) : memo V * V :=
+  match memo_find m k with Some v => (m, v) | None => let v := f k in ((k, v) :: m, v) end.
+Definition memo_run {V} (f : nat -> V) (reads : list nat) : memo V :=
+  fold_left (fun m k => fst (memo_read f m k)) reads [].
+(* the cached properties this applies to (ParseFacts.cached_properties_as_modelled ties it to the source) *)
+Definition expected_cached_properties : list (str * str) :=
+  [([76;111;99;97;116;105;111;110;83;116;101;112]%N, [95;97;110;100;101;114;115;95;112;114;101;100;105;99;97;116;101;115]%N);     (* LocationStep._anders_predicates *)
+   ([76;111;99;97;116;105;111;110;83;116;101;112]%N, [95;100;101;114;105;118;101;100;95;97;116;116;114;105;98;117;116;101;115]%N);     (* LocationStep._derived_attributes *)
+   ([88;80;97;116;104;69;120;112;114;101;115;115;105;111;110]%N, [95;105;115;95;117;110;97;109;98;105;103;117;111;117;115;108;121;95;108;111;99;97;116;97;98;108;101]%N)].    (* XPathExpression._is_unambiguously_locatable *)
+
 (* earlier calls: parse(s) (also what every xpath()/evaluate call starts with), tokenize(s),
    parse.cache_clear(), tokenize.cache_clear() *)
 Inductive event := EvParse (s : str) | EvTokenize (s : str) | EvClearParse | EvClearTokenize.
@@ -583,9 +604,10 @@ Definition model_audit_counts : list (list (str * N)) := [
      OPERATORS[token.string] = S_expr_operators_lookup; int() + except ValueError = py_int / its None branch;
      except XPE + raise e = at_position around function_ctor; 4 raise XPE = missing expression, number too
      long, operator misses an operand, unrecognized predicate expression; slices = firstn / skipn /
-     py_strip_ends; subscripts: guarded ones = nth_tok / nth_group, the final tokens[0] = S_expr_empty *)
+     py_strip_ends; subscripts: guarded ones = nth_tok / nth_group (tokens[0].string of the existence test included),
+     the final tokens[0] = S_expr_empty *)
   [a_ k_assert 11; a_ k_call_Function 2; a_ k_dict_lookup 1; a_ k_except_ValueError 1; a_ k_except_XPE 1; a_ k_int 1;
-   a_ k_raise_XPE 4; a_ k_raise_e 1; a_ k_slice 3; a_ k_subscript 22];
+   a_ k_raise_XPE 4; a_ k_raise_e 1; a_ k_slice 3; a_ k_subscript 23];
   [];   (* parser.partition_tokens *)
   (* parser.parse: finalize; except RecursionError + raise XPE = parse_under true *)
   [a_ k_except_RecursionError 1; a_ k_except_XPE 1; a_ k_raise_XPE 1; a_ k_raise_e 1];
